@@ -85,6 +85,9 @@ type RPCSendShardResponse struct {
 
 func (c *ClusterNode) RPCSendShard(args *RPCSendShardRequest, reply *RPCSendShardResponse) error {
 	c.logger.Debug().Str("userId", args.UserId).Str("collectionId", args.CollectionId).Str("shardId", args.ShardId).Int("chunkIndex", args.ChunkIndex).Int("chunkSize", len(args.ChunkData)).Msg("RPCSendShard")
+	if err := verifFaultSendShard(c, args); err != nil {
+		return err
+	}
 	if args.Dest != c.MyHostname {
 		return c.internalRoute("ClusterNode.RPCSendShard", args, reply)
 	}
